@@ -120,6 +120,10 @@ def relay_chain(rng, prog, sc):
             if rng.random() < 0.3:
                 p["hops"] = rng.randint(1, limit)
             prog["pre"].append(p)
+    if rng.random() < 0.15:
+        # the same request scheduled twice: two pre-run events equal in every field (time, kind, target, daemon flag,
+        # metadata) are still two events, each delivered once - also in a run replayed after control.reset()
+        prog["pre"].append(dict(rng.choice([p for p in prog["pre"] if p["kind"] != TICK] or prog["pre"])))
     rng.shuffle(prog["pre"])
 
 
@@ -170,13 +174,13 @@ def crash_window(rng, prog, sc, nk):
     prog["window"] = True
 
 
-def shift_start(rng, prog):
+def shift_start(rng, prog, huge=True):
     """run the same program from a start_time other than the epoch: every absolute timestamp of the program moves by
     `start` (1 ns, an off-grid value, whole seconds, …); the horizon is given as end_time= or as duration= (relative
     to start_time, in float seconds, incl. values that do not convert exactly)"""
     small = max(prog["times"]) < 10**6
     start = rng.choice([1, 1, 7, 999, 1000, 123457] if small else [1, 10**9, 3 * 10**9, 2 * 10**9 + 1, 10**9 + 123456789])
-    if rng.random() < 0.2:
+    if huge and rng.random() < 0.2:
         # long simulated times: past 2**53 ns (about 104 days) a float can no longer hold every nanosecond, so any
         # arithmetic on instants that goes through float (seconds or nanoseconds) snaps to a 2 / 16 / 128 ns grid
         start = rng.choice([2 * 10**16 + 1, 10**17 + 3, 10**18 + 7, 2**53 + 1])
@@ -254,7 +258,7 @@ class C01(core.Property):
             "its target is down in the stretch of the trace in which it falls due); end_time none / on a tie value / between events; fast loop or "
             "instrumented loop (control attached); a tenth of the programs (stateless ones) are run, reset() and run again, the second "
             "run being the one compared and judged; relay chains whose hop counter lives in the event metadata (handlers stamp the "
-            "delivered event and forward a copy); 30% of the programs run from a start_time other than the epoch (1 ns, off-grid, one in five of them past 2**53 ns where floats no longer hold every nanosecond, "
+            "delivered event and forward a copy); 15% of the programs schedule one pre-run event twice (the harness tags every event, so the two differ in that metadata tag); 30% of the programs run from a start_time other than the epoch (1 ns, off-grid, one in five of them past 2**53 ns where floats no longer hold every nanosecond, "
             "seconds) with the horizon given as end_time= or as duration= (float seconds relative to start_time); a run that makes more than 1500 deliveries is cut and judged as it stands. Non-trivial = at least two deliveries share a timestamp or an event is "
             "cancelled/stale/gated; distinct = distinct (program, log)")
     trusted_base = [
